@@ -16,7 +16,7 @@ def handleXo (kv : List (String × String)) : String :=
   | some bs =>
     match openIndex (parseVariant (lookupD kv "v" "fixed")) crc32IEEE bs with
     | .error e => s!"err:{errName (some e)}"
-    | .ok r => s!"ok:{showRecs r.recs}:alloc={r.alloc}"
+    | .ok r => s!"ok:{showRecs r.recs}"
   | none => "bad-line"
 
 end Compress.Drv
